@@ -80,6 +80,22 @@ func New(r *rand.Rand) *G {
 		}
 		g.Sigs = append(g.Sigs, sg)
 	}
+	// sometimes one predicate name is used with two arities (legal: name/arity identify a relation)
+	if r.Intn(4) == 0 {
+		base := g.Sigs[r.Intn(len(g.Sigs))]
+		over := Sig{Name: base.Name}
+		ar := (len(base.Kinds) + 1 + r.Intn(2)) % 4
+		for j := 0; j < ar; j++ {
+			if j < len(base.Kinds) {
+				over.Kinds = append(over.Kinds, base.Kinds[j])
+			} else {
+				over.Kinds = append(over.Kinds, g.kind())
+			}
+		}
+		if len(over.Kinds) != len(base.Kinds) {
+			g.Sigs = append(g.Sigs, over)
+		}
+	}
 	return g
 }
 
